@@ -78,7 +78,7 @@ OPERATORS = {
     '<>': operator.ne,
 }
 
-OPERATORS_RE = re.compile('^(?P<oper>(=|<>|<=?|>=?))?(?P<value>.*)$')
+OPERATORS_RE = re.compile('^(?P<oper>(=|<>|<=?|>=?))?(?P<value>.*)$', re.DOTALL)
 
 PYTHON_AST_OPERATORS = {
     'Eq': operator.eq,
